@@ -15,6 +15,18 @@
 #include "common.hpp"
 #include <BayesFilters/EstimatesExtraction.h>
 #include <BayesFilters/HistoryBuffer.h>
+#include <csignal>
+#include <unistd.h>
+
+// On a fatal signal (e.g. pop_back on an empty deque) name the API call that was running.
+// Not installed under the sanitizers: their own report is the better one.
+static void on_fatal(int sig) {
+    char buf[256];
+    int n = std::snprintf(buf, sizeof buf, "BFL_VERIF_SIGNAL sig=%d entry=%s\n", sig, vf::current_entry);
+    if (n > 0) { ssize_t r = write(2, buf, static_cast<size_t>(n)); (void)r; }
+    std::signal(sig, SIG_DFL);
+    std::raise(sig);
+}
 
 using namespace bfl;
 using namespace Eigen;
@@ -151,6 +163,9 @@ static void run_hb(const vf::Case& c) {
 }
 
 int main() {
+#if !defined(__SANITIZE_ADDRESS__) && !defined(__SANITIZE_THREAD__)
+    std::signal(SIGSEGV, on_fatal); std::signal(SIGBUS, on_fatal); std::signal(SIGFPE, on_fatal); std::signal(SIGABRT, on_fatal);
+#endif
     vf::Case c;
     while (vf::read_case(std::cin, c)) {
         if (c.kind == "est") run_est(c);
